@@ -294,10 +294,20 @@ class Ctx:
         return d
 
     # -- obligations ---------------------------------------------------------
-    def prove(self, formula, label, timeout_ms=None, info=None):
-        """pc ==> formula ?  Records and returns 'unsat' (discharged), 'sat', 'unknown'."""
+    def prove(self, formula, label, timeout_ms=None, info=None, drop=None):
+        """pc ==> formula ?  Records and returns 'unsat' (discharged), 'sat', 'unknown'.
+        drop: predicate on path-condition conjuncts; the obligation is first tried under the
+        WEAKER path condition without them (sound: fewer assumptions), e.g. to keep integer
+        rounding constraints out of a non-linear real query."""
         if isinstance(formula, SBool):
             formula = formula.t
+        if drop is not None and not isinstance(formula, (bool, np.bool_)):
+            weak = [c for c in self.pc if not drop(c)]
+            if len(weak) < len(self.pc):
+                r0, _ = solve_validity(weak, formula, timeout_ms)
+                if r0 == "unsat":
+                    self.obligations.append({"label": label, "status": "unsat", "info": info})
+                    return "unsat"
         if isinstance(formula, (bool, np.bool_)):
             r, m = ("unsat", None) if formula else ("sat", self.get_model())
         else:
@@ -327,6 +337,22 @@ class Ctx:
             return bool(formula)
         r, _ = solve(self.pc + [z3.Not(formula)], timeout_ms)
         return r == "unsat"
+
+
+def mentions_to_int(e, _cache=None):
+    """Does the term contain ToInt / integer arithmetic (mixed int-real)?"""
+    seen = set()
+    stack = [e]
+    while stack:
+        t = stack.pop()
+        if t.get_id() in seen:
+            continue
+        seen.add(t.get_id())
+        if z3.is_app(t):
+            if t.decl().kind() in (z3.Z3_OP_TO_INT, z3.Z3_OP_IS_INT) or (t.num_args() == 0 and z3.is_int(t) and not z3.is_int_value(t)):
+                return True
+            stack.extend(t.children())
+    return False
 
 
 def cur():
@@ -727,7 +753,20 @@ class SInt:
     def __index__(self):
         c = Ctx.cur
         for _ in range(4096):
-            v = c.get_model().eval(self.t, model_completion=True).as_long()
+            ev = z3.simplify(c.get_model().eval(self.t, model_completion=True))
+            if z3.is_int_value(ev):
+                v = ev.as_long()
+            else:
+                # algebraic numbers in the model leave ToInt(...) unevaluated: evaluate numerically
+                # (a candidate only -- branch() below asks the solver whether it is feasible)
+                try:
+                    v = int(py_eval(c.get_model(), self.t))
+                except (ValueError, ZeroDivisionError) as e:
+                    raise Unsupported(f"index term has no value in the model: {e}")
+                if not c.branch(self.t == v):
+                    c.model = None
+                    continue
+                return v
             if c.branch(self.t == v):
                 return v
         raise Abort("too many values for an index")
@@ -838,6 +877,10 @@ def sym_max(*args, **kw):
             r = a if bool(c) else r
             continue
         r = _merge(a, r, c.t if isinstance(c, SBool) else z3.BoolVal(bool(c)))
+    if isinstance(r, SInt):
+        conc = [int(x) for x in args if isinstance(x, (int, np.integer)) and not isinstance(x, bool)]
+        if conc:
+            r.lb = max(conc)            # max(x, c) >= c
     return r
 
 
@@ -853,6 +896,10 @@ def sym_min(*args, **kw):
             r = a if bool(c) else r
             continue
         r = _merge(a, r, c.t if isinstance(c, SBool) else z3.BoolVal(bool(c)))
+    if isinstance(r, SInt):
+        conc = [int(x) for x in args if isinstance(x, (int, np.integer)) and not isinstance(x, bool)]
+        if conc:
+            r.ub = min(conc)            # min(x, c) <= c
     return r
 
 
@@ -869,7 +916,22 @@ def sym_round(x, nd=None):
 
 
 def sym_range(*a):
+    """range() with symbolic bounds.  When the bounds carry concrete limits (recorded by
+    max(x, lo) / min(x, hi)) the iteration space is range(lo, hi) and each value is guarded by
+    the symbolic comparisons, so that all values outside [lo, hi) -- which are equivalent --
+    are not enumerated one by one."""
+    if len(a) == 2 and (isinstance(a[0], SInt) or isinstance(a[1], SInt)):
+        lo = getattr(a[0], "lb", None) if isinstance(a[0], SInt) else a[0]
+        hi = getattr(a[1], "ub", None) if isinstance(a[1], SInt) else a[1]
+        if lo is not None and hi is not None:
+            return _guarded_range(a[0], a[1], lo, hi)
     return range(*[x.__index__() if isinstance(x, SInt) else x for x in a])
+
+
+def _guarded_range(a, b, lo, hi):
+    for i in range(lo, hi):
+        if bool(a <= i) and bool(i < b):
+            yield i
 
 
 # ----------------------------------------------------------------------------- model helpers
@@ -890,6 +952,69 @@ def model_value(m, t):
     if z3.is_false(v):
         return False
     raise ValueError(f"cannot concretise {v}")
+
+
+def py_eval(m, t):
+    """Numeric value of an arithmetic/boolean term under model m by structural recursion
+    (algebraic numbers approximated to 30 digits).  Used only to propose candidate values."""
+    import math
+    v = z3.simplify(m.eval(t, model_completion=True))
+    if z3.is_int_value(v):
+        return v.as_long()
+    if z3.is_rational_value(v):
+        return Fraction(v.numerator_as_long(), v.denominator_as_long())
+    if z3.is_algebraic_value(v):
+        a = v.approx(30)
+        return Fraction(a.numerator_as_long(), a.denominator_as_long())
+    if z3.is_true(v):
+        return True
+    if z3.is_false(v):
+        return False
+    k = v.decl().kind()
+    ch = [py_eval(m, c) for c in v.children()]
+    if k == z3.Z3_OP_TO_INT:
+        return math.floor(ch[0])
+    if k == z3.Z3_OP_TO_REAL:
+        return Fraction(ch[0])
+    if k == z3.Z3_OP_ADD:
+        return sum(ch)
+    if k == z3.Z3_OP_SUB:
+        r = ch[0]
+        for c in ch[1:]:
+            r -= c
+        return r
+    if k == z3.Z3_OP_UMINUS:
+        return -ch[0]
+    if k == z3.Z3_OP_MUL:
+        r = 1
+        for c in ch:
+            r *= c
+        return r
+    if k == z3.Z3_OP_DIV:
+        return Fraction(ch[0]) / Fraction(ch[1])
+    if k == z3.Z3_OP_IDIV:
+        return ch[0] // ch[1]
+    if k == z3.Z3_OP_MOD:
+        return ch[0] % ch[1]
+    if k == z3.Z3_OP_ITE:
+        return ch[1] if ch[0] else ch[2]
+    if k == z3.Z3_OP_LE:
+        return ch[0] <= ch[1]
+    if k == z3.Z3_OP_LT:
+        return ch[0] < ch[1]
+    if k == z3.Z3_OP_GE:
+        return ch[0] >= ch[1]
+    if k == z3.Z3_OP_GT:
+        return ch[0] > ch[1]
+    if k == z3.Z3_OP_EQ:
+        return ch[0] == ch[1]
+    if k == z3.Z3_OP_NOT:
+        return not ch[0]
+    if k == z3.Z3_OP_AND:
+        return all(ch)
+    if k == z3.Z3_OP_OR:
+        return any(ch)
+    raise ValueError(f"cannot evaluate {v}")
 
 
 def concretise(x, m):
